@@ -40,6 +40,10 @@ def check(chk, fx):
     c02.once(chk, fx)
     move_w(chk, fx)
     raii(chk, fx)
+    # the library's own functors (emplace_back, push_back, _eN, construct) are part of the transport: their type-level
+    # witness shows that an rvalue element is taken as an rvalue (moved, not copied) and the container handed back by move
+    from . import c19
+    c19.hlp_t(chk, ("clang++",))
 
 
 def move_t(chk, fx):
@@ -203,3 +207,8 @@ def raii(chk, fx):
                 chk.violation("RAII", A.site(f), "RAII:cvector-of-nontrivial", "a cvector value stack holds a non-trivial variant")
                 return
     chk.ok("RAII", "include/ctpg/ctpg.hpp " + P + "reduce", "%d instantiation(s) with a cvector value stack: all variants trivially destructible" % n)
+
+
+def pre(chk):
+    from . import c19
+    c19.hlp_t(chk, ("clang++",))
